@@ -25,7 +25,7 @@ SCALES = [1e-6, 1e-4, 1e-2, 0.5, 3.0, 1e2, 1e4, 1e6]
 
 
 def gen_cases(tier, seed):
-    n = 64 if tier == "quick" else 384
+    n = 64 if tier == "quick" else 768
     cases = []
     for i in range(n):
         rng = bases.rng_for("C13", seed, tier, i)
